@@ -560,7 +560,7 @@ func c10JSON(c *core.Ctx) {
 				found = true
 				v := stripIface(core.AsCall(i).Args[0])
 				paths := map[string]string{}
-				marshalPaths(sx.Of(v), structOf(v.Type()), mf.Params[0].Name(), "", paths)
+				marshalPaths(sx.Of(v), structOf(v.Type()), core.ParamName(mf, 0), "", paths)
 				for p, f := range paths {
 					if f != "" {
 						mKey[f] = p
